@@ -59,6 +59,11 @@ pub struct Hop {
 }
 
 fn send_and_lex(f: Flow<(), Prepare>) -> Option<(crate::drv_req::LexedHead, Flow<(), RecvResponse>)> {
+    send_and_lex_peek(f, None)
+}
+
+/// `peek`: bytes of the server's answer that are already there while the flow awaits 100-continue
+fn send_and_lex_peek(f: Flow<(), Prepare>, peek: Option<&[u8]>) -> Option<(crate::drv_req::LexedHead, Flow<(), RecvResponse>)> {
     let mut buf = vec![0u8; 16384];
     let mut f = f.proceed();
     let mut acc: Vec<u8> = vec![];
@@ -73,12 +78,51 @@ fn send_and_lex(f: Flow<(), Prepare>) -> Option<(crate::drv_req::LexedHead, Flow
     let rr = match guarded(|| f.proceed())?.ok()?? {
         SendRequestResult::RecvResponse(f) => f,
         SendRequestResult::SendBody(f) => crate::fx::finish_body(f)?,
-        SendRequestResult::Await100(a) => match guarded(|| a.proceed())?.ok()? {
+        SendRequestResult::Await100(mut a) => match {
+            if let Some(p) = peek {
+                // the server does not send 100 but answers straight away: the body is withheld
+                guarded(|| a.try_read_100(p))?.ok()?;
+            }
+            guarded(|| a.proceed())?.ok()?
+        } {
             ureq_proto::client::flow::Await100Result::SendBody(f) => crate::fx::finish_body(f)?,
             ureq_proto::client::flow::Await100Result::RecvResponse(f) => f,
         },
     };
     Some((lh, rr))
+}
+
+fn hop_head(h: &Hop) -> Vec<u8> {
+    let mut head = format!("HTTP/1.1 {} Moved\r\n", h.status).into_bytes();
+    for d in 0..h.decoys {
+        head.extend(format!("Location: http://decoy{}.test/wrong\r\n", d).as_bytes());
+    }
+    match h.bad {
+        Some("missing") => {}
+        Some("nontext") => head.extend(b"Location: http://a.test/\xff\xfe\r\n"),
+        Some("ipv6") => head.extend(b"Location: http://[::1/x\r\n"),
+        Some("spacehost") => head.extend(b"Location: http://a b/x\r\n"),
+        // non-textual although valid UTF-8
+        Some("utf8path") => head.extend(b"Location: /caf\xc3\xa9\r\n"),
+        Some("utf8host") => head.extend(b"Location: http://b\xc3\xbccher.test/x\r\n"),
+        Some("kelvin") => head.extend(b"Location: //\xe2\x84\xaa.test/\r\n"),
+        Some("latin1") => head.extend(b"Location: /caf\xe9?x=1\r\n"),
+        Some(_) => head.extend(b"Location: http://[zz]/\r\n"),
+        None => {
+            head.extend(b"Location: ");
+            head.extend(ref_text(&h.r).as_bytes());
+            if h.frag {
+                head.extend(b"#frag-1");
+            }
+            head.extend(b"\r\n");
+        }
+    }
+    if h.with_body {
+        head.extend(b"Content-Length: 5\r\nSet-Cookie: a=b\r\n\r\n");
+    } else {
+        head.extend(b"Content-Length: 0\r\n\r\n");
+    }
+    head
 }
 
 /// What the caller does around the hops of a chain.
@@ -92,6 +136,8 @@ pub struct ChainOpt {
     pub readd: bool,
     /// the server sends an unsolicited "100 Continue" before every 3xx head
     pub interim: bool,
+    /// the first response is already there while the first request awaits 100-continue (Expect rejected by the answer)
+    pub answer_in_await: bool,
 }
 
 const ORIG_AUTH: [&[u8]; 2] = [b"Basic b3JpZzpwdw==", b"Bearer second-line"];
@@ -133,7 +179,12 @@ pub fn run_chain_opt(t: &mut Tracer, orig: &Value, method: &str, same_host: bool
     t.case(json!({"ev":"case","comp":"redirect","orig":orig,"method":method,"policy":pol_s,"note":note,"hops":hops.len()}));
     let mut cur = project_uri(flow.uri());
     let mut cur_method = method.to_string();
-    let mut rr = match send_and_lex(flow) {
+    let first_head = hops.first().map(hop_head);
+    let peek = if opt.answer_in_await && !opt.interim { first_head.as_deref() } else { None };
+    if peek.is_some() {
+        t.class("hop:answered-while-awaiting-100");
+    }
+    let mut rr = match send_and_lex_peek(flow, peek) {
         Some((_, rr)) => rr,
         None => {
             t.ev(json!({"ev":"panic","during":"sending the first request"}));
@@ -141,30 +192,7 @@ pub fn run_chain_opt(t: &mut Tracer, orig: &Value, method: &str, same_host: bool
         }
     };
     for (hi, h) in hops.iter().enumerate() {
-        let mut head = format!("HTTP/1.1 {} Moved\r\n", h.status).into_bytes();
-        for d in 0..h.decoys {
-            head.extend(format!("Location: http://decoy{}.test/wrong\r\n", d).as_bytes());
-        }
-        match h.bad {
-            Some("missing") => {}
-            Some("nontext") => head.extend(b"Location: http://a.test/\xff\xfe\r\n"),
-            Some("ipv6") => head.extend(b"Location: http://[::1/x\r\n"),
-            Some("spacehost") => head.extend(b"Location: http://a b/x\r\n"),
-            Some(_) => head.extend(b"Location: http://[zz]/\r\n"),
-            None => {
-                head.extend(b"Location: ");
-                head.extend(ref_text(&h.r).as_bytes());
-                if h.frag {
-                    head.extend(b"#frag-1");
-                }
-                head.extend(b"\r\n");
-            }
-        }
-        if h.with_body {
-            head.extend(b"Content-Length: 5\r\nSet-Cookie: a=b\r\n\r\n");
-        } else {
-            head.extend(b"Content-Length: 0\r\n\r\n");
-        }
+        let head = hop_head(h);
         if opt.interim {
             // an unsolicited interim response: handed to the caller (or skipped), the exchange goes on
             t.class("hop:after-interim-100");
@@ -400,7 +428,7 @@ pub fn c13_14(o: &Opts, t: &mut Tracer) -> Value {
         let mut hops = vec![];
         for k in 0..nh {
             let last = k + 1 == nh;
-            let bad = if last && i % 9 == 0 { Some(["missing", "nontext", "ipv6", "spacehost"][(i / 9) % 4]) } else { None };
+            let bad = if last && i % 9 == 0 { Some(["missing", "nontext", "ipv6", "spacehost", "utf8path", "utf8host", "kelvin", "latin1"][(i / 9) % 8]) } else { None };
             hops.push(Hop {
                 status: statuses[rng.gen_range(0..8)],
                 r: if bad.is_some() { bad_ref() } else { random_ref(&mut rng) },
@@ -412,7 +440,7 @@ pub fn c13_14(o: &Opts, t: &mut Tracer) -> Value {
         }
         let m = methods[rng.gen_range(0..9)];
         t.sig(format!("rnd/{}/{}/{}", m, nh, i % 9 == 0));
-        let opt = ChainOpt { despite: rng.gen_bool(0.15), despite_hops: rng.gen_bool(0.15), readd: rng.gen_bool(0.25), interim: rng.gen_bool(0.15) };
+        let opt = ChainOpt { despite: rng.gen_bool(0.15), despite_hops: rng.gen_bool(0.15), readd: rng.gen_bool(0.25), interim: rng.gen_bool(0.15), answer_in_await: rng.gen_bool(0.3) };
         run_chain_opt(t, &orig, m, rng.gen_bool(0.6), &hops, "random-chain", opt);
     }
     // directed: leave and return, scheme downgrade on the same host, same host different port
@@ -431,7 +459,7 @@ pub fn c13_14(o: &Opts, t: &mut Tracer) -> Value {
             run_chain(t, &a("https", "127.0.0.1", 0), "GET", same, &[h(abs("https", "10.1.2.3", 0)), h(absp.clone()), h(abs("https", "127.0.0.1", 0))], "ip-literal-leave-and-return");
             run_chain(t, &a("http", "[::1]", 8080), "GET", same, &[h(abs("http", "[::2]", 8080)), h(abs("http", "127.0.0.1", 8080)), h(abs("http", "[::1]", 8080))], "ipv6-literal-leave-and-return");
             for opt in [ChainOpt { readd: true, ..Default::default() }, ChainOpt { despite_hops: true, ..Default::default() }, ChainOpt { interim: true, ..Default::default() },
-                        ChainOpt { readd: true, despite_hops: true, interim: true, despite: true }] {
+                        ChainOpt { readd: true, despite_hops: true, interim: true, despite: true, answer_in_await: false }, ChainOpt { answer_in_await: true, ..Default::default() }] {
                 run_chain_opt(t, &a("https", "a.test", 0), "GET", same, &[h(absp.clone()), h(abs("https", "b.test", 0)), h(rel.clone()), h(abs("https", "a.test", 0))], "caller-options", opt);
                 run_chain_opt(t, &a("http", "a.test", 0), "POST", same, &[h(absp.clone()), h(rel.clone())], "caller-options", opt);
             }
@@ -449,9 +477,19 @@ pub fn c15(o: &Opts, t: &mut Tracer) -> Value {
         for st in 300u16..=399 {
             for same in [false, true] {
                 for with_body in [false, true] {
-                    let r = if (st as usize + n) % 3 == 0 { mk_ref("abs", "https", "b.test", 0, &["t"], "-") } else { mk_ref("abspath", "", "", 0, &["next"], "-") };
+                    let r = match (st as usize + n) % 7 {
+                        0 | 3 => mk_ref("abs", "https", "b.test", 0, &["t"], "-"),
+                        // back to the very URI just requested: still a redirect to follow
+                        1 => mk_ref("abspath", "", "", 0, &["x", "y"], "-"),
+                        4 => mk_ref("relpath", "", "", 0, &["y"], "-"),
+                        5 => mk_ref("empty", "", "", 0, &[], "-"),
+                        _ => mk_ref("abspath", "", "", 0, &["next"], "-"),
+                    };
+                    if matches!((st as usize + n) % 7, 1 | 4 | 5) {
+                        t.class("hop:to-the-same-uri");
+                    }
                     let despite = !matches!(m, "POST" | "PUT" | "PATCH") && (st as usize + n) % 4 == 1;
-                    let opt = ChainOpt { despite, despite_hops: (st as usize + n) % 5 == 2, readd: (st as usize + n) % 7 == 3, interim: (st as usize + n / 4) % 3 == 1 };
+                    let opt = ChainOpt { despite, despite_hops: (st as usize + n) % 5 == 2, readd: (st as usize + n) % 7 == 3, interim: (st as usize + n / 4) % 3 == 1, answer_in_await: (st as usize + n / 2) % 2 == 0 };
                     run_chain_opt(t, &orig, m, same, &[Hop { status: st, r, bad: None, frag: false, decoys: 0, with_body }], "c15", opt);
                     n += 1;
                 }
